@@ -381,6 +381,37 @@ theorem feed_C (hc : CntOk o) {st : St} {f : Frame} {rest : List Frame} {q : Pat
     simp only [hf', Bool.false_and, Bool.false_eq_true, ↓reduceIte, St.reply, recvFile, hset, List.nil_append]
     rw [hfe]
 
+/-- the control record of such a file alone draws exactly one acknowledgement (the sender waits for it
+before it sends the data) -/
+theorem feed_C_head {st : St} {f : Frame} {rest : List Frame} {q : Path}
+    (hph : st.phase = .start) (hs : st.stack = f :: rest) (htd : f.targisdir = true)
+    (hr : resolve st.fs o.cwd f.targ = some q) (hd : st.fs.isDir q = true)
+    {n : Str} (hn : GoodName n) (hfresh : st.fs (q ++ [n]) = none)
+    (hlen : f.targ.length + n.length + 1 < PCP_PATH_MAX)
+    (m : Nat) (d : Str) (hsz : d.length < 2 ^ 63) (hfit : o.fitsB d.length = true) :
+    ((cRecord m d.length n).foldl (step o) st).out = .ack :: st.out := by
+  obtain ⟨hnl, _, hlen2⟩ := ctlBody_props (m &&& RCP_MODEMASK) d.length hn hsz
+  rw [cRecord_eq, foldl_line st hph cC _ (by decide) hnl hlen2,
+    handleRecord_ctl hs (classify_ctl cC (Or.inl rfl) _ _ hn (and_mask_lt m) hsz)
+      (nameOk_plain _ hn.plain) htd]
+  have hbeq : (cC == cD) = false := by decide
+  simp only [hbeq, Bool.false_eq_true, ↓reduceIte]
+  have hrj := resolve_join hr hd hn.plain hn.short hlen
+  rw [handleFile_fresh _ _ hrj hfresh (trailingSlash_join _ hn.plain)]
+  by_cases hd0 : d = []
+  · subst hd0
+    simp only [List.length_nil, Int.natCast_zero, Int.le_refl, ↓reduceIte]
+    have := afterData_created (o := o)
+      (st := { st with fs := (st.fs.bumpDir q).set (q ++ [n]) (.file (maskOff (m &&& RCP_MODEMASK) o.eumask) none []),
+                       touched := (q ++ [n]) :: st.touched, out := .ack :: st.out })
+      (p := q ++ [n]) (np := joinName f.targ n) (count := 0) (pr := []) (wr := []) (w := []) hfit
+      (set_self _ _ _) (by simp)
+    simp only [List.length_nil, Int.natCast_zero] at this
+    rw [this]
+  · have hpos : 0 < d.length := List.length_pos_iff.2 hd0
+    have hnle : ¬ ((d.length : Int) ≤ 0) := by omega
+    simp only [hnle, ↓reduceIte]
+
 /-- **One file that is larger than the receiver's file size limit** (write fault in the middle of its
 data): all of its bytes and the response byte are consumed, the record is acknowledged, ONE error
 record is sent, the file holds the bytes that fitted, the pending times are not applied, and the
